@@ -244,6 +244,35 @@ CARMICHAEL_SMALL = [561, 1105, 1729, 2465, 2821, 6601, 8911, 10585, 15841, 29341
                     340561, 399001, 410041, 449065, 488881, 512461]
 
 
+# 64-bit strong pseudoprimes to base 2 of the form p (2p - 1), strong Lucas pseudoprimes (Selfridge) of the form p (p + 2), and
+# for every Selfridge parameter D = 5, -7, -11, 13, ... a 64-bit prime and an odd non-square composite whose FIRST D with Jacobi
+# symbol -1 is that D (so the D search, as_int(D), the sign flip and the add_mod / sub_mod branch of the Lucas steps are all
+# taken in every run).  Computed once by the oracles of this file; every run re-verifies the class of each number.
+SPSP2_LARGE = [12181843815811593661, 14811761568772207621, 9269310106578494701, 5011124664954566161, 6328524484308871153,
+               759823906339510741, 354007588690161253, 11814414004620541]
+SLPSP_LARGE = [16999815898738889999, 8116790629643312399, 17031658112554702499, 4048669310000691599, 647582293436000399,
+               46938500743702499, 4136213419559999, 190106462168099]
+SELFRIDGE_D_CASES = {5: [9343011604681400473, 6109266425478011647], -7: [13620027594328823069, 10440117543739112099],
+                     -11: [14387255950864620511, 13525877483307780021], 13: [13145588558752952681, 5087871929258161219],
+                     -15: [10753363897583239241, 13294663436952109199], 17: [7021141555674586201, 11651727857047569201],
+                     -19: [10772281499581988299, 15129848408265170671], 21: [None, 5349133289750120495],
+                     -23: [8217178344535151209, 15911587260944214711], -27: [None, 7829091977568844115],
+                     29: [7147053013668183001, 13892592856209732505], -31: [8738455344246012961, 10005443827795974541]}
+
+
+def prime_powers_below_2_64():
+    """p^k < 2^64 for every k >= 1 (k up to 63 for p = 2): primes inside the trial-division table, at its end (523, 541), just
+    beyond it (547, 557: Pollard's rho must split a prime power), and at 2^16, 2^21, 2^32."""
+    out = []
+    for p in (2, 3, 5, 7, 11, 13, 523, 541, 547, 557, 65521, 65537, 2097143, 4294967291):
+        assert is_prime_det(p)
+        v = p
+        while v < M64:
+            out.append(v)
+            v *= p
+    return sorted(set(out))
+
+
 def gen_adversarial(rng, tier):
     """dict class → list of n (all < 2^64)."""
     k = 1 if tier == "quick" else 4
@@ -331,6 +360,29 @@ def gen_adversarial(rng, tier):
         r3.append(rng.choice(small[:40]) * rng.choice(small[:40]) * rng.choice(small[:40]) * rng.choice(small[:40]))
     adv["rough_3plus_factors"] = sorted(set(r3))
     adv["is_perfect_square_false_positives"] = list(SQUARE_FALSE_POSITIVES)
+    adv["spsp2_large_fixed"] = list(SPSP2_LARGE)
+    adv["slpsp_large_fixed"] = list(SLPSP_LARGE)
+    adv["selfridge_D_classes"] = [v for pair in SELFRIDGE_D_CASES.values() for v in pair if v is not None]
+    adv["prime_powers"] = prime_powers_below_2_64()
+    # p tiny (inside / at the end of / just beyond the table), q huge
+    th = []
+    for p in (2, 3, 5, 7, 523, 541, 547, 557, 1009, 65537):
+        q = prev_prime(MAXU // p + 1)
+        th += [p * q, p * prev_prime(q)]
+        q2 = next_prime(rng.randrange(1 << 30, MAXU // (p * p) - (1 << 12)))
+        th += [p * q2, p * p * q2]
+    adv["tiny_times_huge"] = sorted(set(v for v in th if v < M64))
+    # unbalanced semiprimes beyond the table: p ~ 2^10 .. 2^24, q = the rest
+    ub = [1021 * prev_prime(1 << 53), 65537 * prev_prime(1 << 47), 1048583 * prev_prime(1 << 43), 16777259 * prev_prime(1 << 39)]
+    for bits in (10, 12, 14, 16, 18, 20, 22, 24):
+        p = next_prime(rng.randrange(1 << (bits - 1), 1 << bits))
+        q = next_prime(rng.randrange(1 << (62 - bits), 1 << (63 - bits)))
+        ub.append(p * q)
+    adv["unbalanced_semiprimes"] = sorted(set(ub))
+    # large even numbers, powers of two times a prime, perfect powers of composites
+    adv["even_and_composite_powers"] = [1 << 63, MAXU - 1, 2 * prev_prime(1 << 63), 6 * prev_prime((1 << 61)), (1 << 32) * prev_prime(1 << 32),
+                                        (1 << 62) + 2, 6 ** 24, 10 ** 19, 15 ** 16, (547 * 557) ** 3, (65521 * 65537) ** 2, 2 ** 62, 4 ** 31,
+                                        (3 * 5 * 7 * 11 * 13) ** 4, 3 ** 40 * 1, 2 * 3 ** 39]
     return adv
 
 
@@ -429,6 +481,7 @@ def gen_mod_cases(rng, tier):
             ("halfmod", MAXU - 1, 0, MAXU, True), ("halfmod", MAXU - 2, 0, MAXU, True),
             ("powmod", MAXU, MAXU, MAXU, True), ("powmod", 2, 64, MAXU, True), ("powmod", 0, 0, 7, True),
             ("powmod", 5, 0, 1, False), ("powmod", 5, 3, 1, True)]
+    out += fixed_mod_cases()
     # a small stream outside the documented preconditions: model vs implementation only
     for _ in range(cnt // 10):
         n = moduli()
@@ -443,6 +496,65 @@ def gen_mod_cases(rng, tier):
             seen.add(c[:4])
             res.append(c)
     return res
+
+
+def fixed_mod_cases():
+    """Directed cases judged in EVERY run: every guard of mod.hh at, just below and just above its boundary, for the moduli
+    1, 2, 3, 2^32 +- 1, 2^63 - 1, 2^63, 2^63 + 1, 2^64 - 2, 2^64 - 1; deep mul_mod recursion (consecutive Fibonacci numbers: the
+    recursion goes several levels deep with chunk sizes 1 and 2); chunk_result = n - 0 (a | n); a * b = 2^64 - 1, 2^64, 2^64 + 1 exactly."""
+    out = []
+    mods = [1, 2, 3, 4, 5, 255, 256, 257, (1 << 32) - 1, 1 << 32, (1 << 32) + 1, (1 << 63) - 1, 1 << 63, (1 << 63) + 1, MAXU - 1, MAXU,
+            12200160415121876738, 7540113804746346429, (1 << 64) - (1 << 32), 18446744073709551557]
+    for n in mods:
+        ops = sorted({v for v in (0, 1, 2, n // 2 - 1, n // 2, n // 2 + 1, n - 3, n - 2, n - 1) if 0 <= v < n})
+        for a in ops:
+            for b in ops:
+                out.append(("addmod", a, b, n, True))
+                out.append(("submod", a, b, n, True))
+                out.append(("mulmod", a, b, n, True))
+            if n % 2 == 1:
+                out.append(("halfmod", a, 0, n, True))
+            for e in (0, 1, 2, 3, 63, 64, 65, n - 1, n, MAXU):
+                if n > 1:
+                    out.append(("powmod", a, e % M64, n, True))
+        if n > 1:
+            for base in (n, n + 1, MAXU, MAXU - 1):
+                if base < M64:
+                    out.append(("powmod", base, 5, n, True))
+    # the overflow guard of mul_mod: a * b in {2^64 - 2, 2^64 - 1, 2^64, 2^64 + 1} and a = max / b + {-1, 0, 1}
+    for (a, b) in [(1 << 32, 1 << 32), ((1 << 32) - 1, (1 << 32) + 1), ((1 << 32) + 1, (1 << 32) - 1), (MAXU // 3, 3), (3, MAXU // 3),
+                   (MAXU // 5, 5), (MAXU // 17, 17), (MAXU // 3 + 1, 3), (MAXU // 3 - 1, 3), (1 << 63, 2), (2, 1 << 63), ((1 << 63) - 1, 2),
+                   (1 << 62, 4), ((1 << 62) + 1, 4), (6700417, MAXU // 6700417), (6700417, MAXU // 6700417 + 1), (MAXU // 2, 2), (MAXU // 2 + 1, 2)]:
+        for n in (MAXU, MAXU - 1, 18446744073709551557, (1 << 63) + 1, max(a, b) + 1):
+            if a < n and b < n:
+                out.append(("mulmod", a, b, n, True))
+    # deep recursion: n = F(93), a = F(92), F(91), ... (n % a is the previous Fibonacci number at every level)
+    fib = [1, 2]
+    while fib[-1] + fib[-2] < M64:
+        fib.append(fib[-1] + fib[-2])
+    n = fib[-1]
+    for a in (fib[-2], fib[-3], fib[-4], fib[-10], fib[-2] + 1, fib[-2] - 1):
+        for b in (n - 1, n - 2, fib[-2], fib[-3], n // 2, 1 << 63 if (1 << 63) < n else n - 3):
+            out.append(("mulmod", a, b, n, True))
+    n2 = fib[-2]
+    out += [("mulmod", fib[-3], n2 - 1, n2, True), ("mulmod", fib[-4], fib[-3], n2, True)]
+    # chunk_result = n - 0: n % a == 0 or negative_chunk * num_chunks = 0 (mod n)
+    n = (1 << 64) - (1 << 32)
+    for a in (1 << 32, 1 << 33, (1 << 32) - 1, n // 3, n // 5, n // 2):
+        for b in (n - 1, n - 2, (1 << 63) + 12345, 1 << 63, n // 2 + 1):
+            if a < n and b < n:
+                out.append(("mulmod", a, b, n, True))
+    return out
+
+
+def mul_mod_depth(a, b, n):
+    """Recursion depth of mul_mod on (a, b, n) (0 = fast path) — for the coverage statistics only."""
+    d = 0
+    while not (b == 0 or a < MAXU // b):
+        cs = n // a
+        a, b = n - a * cs, b // cs
+        d += 1
+    return d
 
 
 def mod_oracle(op, a, b, n):
@@ -520,6 +632,12 @@ static void on_alarm(int) {
     if (write(1, buf, k) < 0) {}
     _exit(3);
 }
+// traps (SIGFPE from a division by zero, SIGSEGV from runaway recursion, ...): the request answers `TRAP ...` naming the
+// input it was working on, and the harness goes on with the next request
+#include <csetjmp>
+static sigjmp_buf g_jmp;
+static volatile sig_atomic_t g_sig = 0;
+static void on_trap(int sig) { g_sig = sig; siglongjmp(g_jmp, 1); }
 static const char* prn(d::PrimeResult r) {
     return r == d::PrimeResult::COMPOSITE ? "COMPOSITE" : r == d::PrimeResult::PROBABLY_PRIME ? "PROBABLY_PRIME" : "BAD_INPUT";
 }
@@ -543,12 +661,23 @@ int main() {
     static char line[4096];
     // the budget is CPU time of this process (ITIMER_PROF), so a saturated machine cannot make a finite request look like a hang
     signal(SIGPROF, on_alarm);
+    {
+        static char altstack[1 << 16];
+        stack_t ss; ss.ss_sp = altstack; ss.ss_size = sizeof altstack; ss.ss_flags = 0; sigaltstack(&ss, nullptr);
+        struct sigaction sa; memset(&sa, 0, sizeof sa); sa.sa_handler = on_trap; sa.sa_flags = SA_ONSTACK | SA_NODEFER; sigemptyset(&sa.sa_mask);
+        sigaction(SIGFPE, &sa, nullptr); sigaction(SIGSEGV, &sa, nullptr); sigaction(SIGBUS, &sa, nullptr); sigaction(SIGILL, &sa, nullptr);
+    }
     const char* budget = getenv("C12_LINE_BUDGET");
     unsigned budget_s = budget ? (unsigned)atoi(budget) : 300u;
     while (fgets(line, sizeof line, stdin)) {
         { struct itimerval tv; tv.it_interval.tv_sec = 0; tv.it_interval.tv_usec = 0; tv.it_value.tv_sec = budget_s; tv.it_value.tv_usec = 0;
           setitimer(ITIMER_PROF, &tv, nullptr); }
         g_what = "-"; g_cur = 0; strcpy(g_partial, "-");
+        if (sigsetjmp(g_jmp, 1)) {
+            printf("TRAP sig=%d what=%s current=%llu partial=%s\n", (int)g_sig, g_what, (unsigned long long)g_cur, g_partial);
+            fflush(stdout);
+            continue;
+        }
         char cmd[16] = {0}; char op[16] = {0}; ull a = 0, b = 0, c = 0, e = 0;
         if (sscanf(line, "%15s", cmd) != 1) { puts("bad"); continue; }
         if (!strcmp(cmd, "P") || !strcmp(cmd, "PQ")) {
@@ -569,6 +698,7 @@ int main() {
         } else if (!strcmp(cmd, "A")) {
             if (sscanf(line, "%*s %15s %llu %llu %llu", op, &a, &b, &c) != 4) { puts("bad"); continue; }
             long u0 = g_ub; uint64_t r = 0;
+            g_what = "A";
             if (!strcmp(op, "addmod")) r = d::add_mod(a, b, c);
             else if (!strcmp(op, "submod")) r = d::sub_mod(a, b, c);
             else if (!strcmp(op, "mulmod")) r = d::mul_mod(a, b, c);
@@ -679,12 +809,13 @@ int main() {
                 if (q == 2) { u128 t = nudge(x); if (t < n) y = (uint64_t)t; }                            // a - b in {-1, 0, 1}
                 if (n > (1ull << 63)) ++big;
                 if (!(y == 0 || x < UINT64_MAX / y)) ++slow;
+                uint64_t ex = (i % 4 == 0) ? g.next() : g.below(64);
+                uint64_t bs = g.next();
+                snprintf(g_partial, sizeof g_partial, "operands:a=%llu,b=%llu,n=%llu,base=%llu,exp=%llu", (ull)x, (ull)y, (ull)n, (ull)bs, (ull)ex);
                 long u0 = g_ub;
                 uint64_t r1 = d::add_mod(x, y, n), r2 = d::sub_mod(x, y, n), r3 = d::mul_mod(x, y, n);
                 uint64_t no = n | 1, xo = x % no;
                 uint64_t r4 = d::half_mod_odd(xo, no);
-                uint64_t ex = (i % 4 == 0) ? g.next() : g.below(64);
-                uint64_t bs = g.next();
                 uint64_t r5 = d::pow_mod(bs, ex, n);
                 wraps += g_ub - u0;
                 n_eval += 5;
@@ -833,6 +964,13 @@ def run_sharded(exe, lines, shards=16, heavy=lambda l: False, budget=300):
             fails.append(fail)
         for i, r in zip(idx, res):
             answers[i] = r
+    for i, a in enumerate(answers):
+        if a is not None and a.startswith("TRAP"):
+            r = kv(a)
+            fails.insert(0, {"what": f"request `{lines[i]}` trapped with signal {r.get('sig')} (8 = SIGFPE, 11 = SIGSEGV) while working on "
+                                     f"{r.get('what')} input {r.get('current')} ({r.get('partial')})", "request": lines[i],
+                             "current": r.get("current"), "phase": r.get("what"), "partial": r.get("partial")})
+            break
     if fails:
         raise HarnessFailure(dict(fails[0], n_failures=len(fails), exe=os.path.basename(exe)))
     return answers, errs
@@ -967,6 +1105,16 @@ def gen_mag_cases(rng, tier):
                   2305843009213693951, 1000000007, 998244353, next_prime(1 << 40), 65537, 65521]
     cases = [(12, 18), (1, 1), (1, 97), (2, 2), (1000, 1000), (541, 541), (547, 547), (541, 547), (65521, 65537),
              (1000003, 1000033), (4294967296, 4294967295), (3, 6148914691236517205), (1 << 32, 1 << 31)]
+    # directed, in every run: many prime factors (primorial), N = 2^64 - 1 and the largest 64-bit prime, prime powers 2^63, 3^40,
+    # 7^22, 547^6 (rho on a prime power), three and four rough factors, p tiny x q huge, p at the end of / just beyond the table,
+    # a * b = 2^63 with every split, the former F19 prime
+    cases += [(2 * 3 * 5 * 7 * 11 * 13 * 17 * 19, 23 * 29 * 31 * 37 * 41 * 43 * 47), (MAXU, 1), (3 * 5 * 17 * 257, 641 * 65537 * 6700417),
+              (18446744073709551557, 1), (1 << 62, 2), (1 << 1, 1 << 62), (1 << 31, 1 << 32), (3 ** 20, 3 ** 20), (3 ** 39, 3), (7 ** 11, 7 ** 11),
+              (547 ** 3, 547 ** 3), (547 * 557, 563), (547, 557 * 563 * 569), (547 * 557, 563 * 569), (2, prev_prime(1 << 63)),
+              (3, prev_prime(MAXU // 3)), (541, prev_prime(MAXU // 541)), (547, prev_prime(MAXU // 547)), (523 * 541, 547 * 557),
+              (10785637507345693793, 1), (65537 ** 2, 65537), (2097143, 2097143 ** 2), (1 << 32, (1 << 32) - 5), (5 ** 13, 5 ** 14),
+              (6 ** 12, 6 ** 12), (10 ** 9, 10 ** 10)]
+    k += len(cases) - 13
     while len(cases) < k + 13:
         def one():
             r = rng.random()
@@ -986,6 +1134,20 @@ def gen_mag_cases(rng, tier):
     return cases
 
 
+CONSTEXPR_MOD_CASES = [
+    ("addmod", MAXU - 1, MAXU - 1, MAXU, True), ("addmod", (1 << 63), (1 << 63), (1 << 63) + 1, True), ("addmod", 5, 2, 7, True),
+    ("submod", 0, MAXU - 1, MAXU, True), ("submod", 3, 3, 7, True), ("submod", 2, 3, (1 << 63) + 1, True),
+    ("mulmod", MAXU - 1, MAXU - 1, MAXU, True), ("mulmod", 1 << 32, 1 << 32, MAXU, True), ("mulmod", (1 << 32) - 1, (1 << 32) + 1, MAXU, True),
+    ("mulmod", 7540113804746346429, 12200160415121876737, 12200160415121876738, True), ("mulmod", 1 << 32, (1 << 63) + 12345, (1 << 64) - (1 << 32), True),
+    ("mulmod", MAXU // 3, 3, MAXU, True), ("mulmod", 0, 5, 7, True), ("mulmod", 5, 0, 7, True),
+    ("halfmod", MAXU - 1, 0, MAXU, True), ("halfmod", MAXU - 2, 0, MAXU, True), ("halfmod", 0, 0, 1, True), ("halfmod", 1, 0, 3, True),
+    ("powmod", MAXU, MAXU, 18446744073709551557, True), ("powmod", 2, 64, MAXU, True), ("powmod", 0, 0, 7, True), ("powmod", 3, 1 << 63, (1 << 63) + 1, True),
+]
+CONSTEXPR_PRIME_CASES = [0, 1, 2, 3, 4, 9, 541, 547, 541 * 541, 541 * 547, 2047, 5459, 561, 3215031751, 4294967291, (1 << 61) - 1,
+                         18446744073709551557, MAXU, 10785637507345693793, 10685528935143053617, 547 * 557 * 563, 2 * 9223372036854775783,
+                         11814414004620541, 190106462168099, 1 << 63, 547 ** 4]
+
+
 def mag_str(f):
     return "*".join(f"{p}^{e}" for p, e in f) if f else "1"
 
@@ -999,7 +1161,26 @@ def mag_probe(wd, cases, compiler, std, tag):
     for (a, b) in cases:
         body.append(f"  static_assert(au::mag<{a}ull>() * au::mag<{b}ull>() == au::mag<{a * b}ull>(), \"C12 product\");")
         body.append(f"  static_assert(std::is_same<decltype(au::mag<{a}ull>() * au::mag<{b}ull>()), decltype(au::mag<{a * b}ull>())>::value, \"C12 type\");")
+        body.append(f"  static_assert(std::is_same<decltype(au::mag<{b}ull>() * au::mag<{a}ull>()), decltype(au::mag<{a * b}ull>())>::value, \"C12 type (b * a)\");")
+        body.append(f"  static_assert(au::mag<{b}ull>() * au::mag<{a}ull>() == au::mag<{a * b}ull>(), \"C12 product (b * a)\");")
+        # regrouping through the smallest prime factor of a: (a / p) * (p * b)
+        pa = factorize(a)[0][0] if a > 1 else 1
+        if pa > 1 and pa * b < M64:
+            body.append(f"  static_assert(std::is_same<decltype(au::mag<{a // pa}ull>() * au::mag<{pa * b}ull>()), decltype(au::mag<{a * b}ull>())>::value, \"C12 type (regrouped)\");")
         body.append(f"  ser(au::mag<{a}ull>()); ser(au::mag<{b}ull>()); ser(au::mag<{a * b}ull>());")
+    # the helpers in constant evaluation (both compilers reject UB and would show a different value than the run-time calls)
+    body.append("  namespace dd = au::detail;")
+    for (op, a, b, n, valid) in CONSTEXPR_MOD_CASES:
+        call = {"addmod": f"dd::add_mod({a}ull, {b}ull, {n}ull)", "submod": f"dd::sub_mod({a}ull, {b}ull, {n}ull)",
+                "mulmod": f"dd::mul_mod({a}ull, {b}ull, {n}ull)", "powmod": f"dd::pow_mod({a}ull, {b}ull, {n}ull)",
+                "halfmod": f"dd::half_mod_odd({a}ull, {n}ull)"}[op]
+        body.append(f"  static_assert({call} == {mod_oracle(op, a, b, n)}ull, \"C12 constexpr {op}({a},{b},{n})\");")
+    for n in CONSTEXPR_PRIME_CASES:
+        body.append(f"  static_assert(dd::is_prime({n}ull) == {'true' if is_prime_det(n) else 'false'}, \"C12 constexpr is_prime({n})\");")
+        if n > 1:
+            f = factorize(n)
+            body.append("  static_assert(" + " || ".join(f"dd::find_prime_factor({n}ull) == {p}ull" for p, _ in f) +
+                        f", \"C12 constexpr find_prime_factor({n})\");")
     body.append("  return 0;\n}")
     open(src, "w").write("\n".join(body))
     extra = ["-fconstexpr-ops-limit=400000000", "-fconstexpr-loop-limit=50000000"] if compiler == "g++" else \
@@ -1028,12 +1209,26 @@ def harness_failure_violation(ex, cfg, phase, violations):
     """A harness shard hit the watchdog or died: non-termination / crash of the implementation on an input."""
     info = ex.info
     cur = info.get("current")
-    concrete = info.get("phase") in ("SWEEP", "P") and cur is not None
-    rec = {"kind": "P", "n": int(cur), "config": cfg, "observable": "termination", "request": info.get("request")} if concrete else \
-          {"kind": "hang", "config": cfg, "phase": phase, "info": {k: str(v)[:1500] for k, v in info.items()}}
+    req = (info.get("request") or "").split()
+    rec = None
+    if info.get("phase") in ("SWEEP", "P", "ROUGH") and cur is not None:
+        rec = {"kind": "P", "n": int(cur), "config": cfg, "observable": "termination", "request": info.get("request")}
+    elif len(req) == 5 and req[0] == "A":
+        rec = {"kind": "A", "op": req[1], "a": int(req[2]), "b": int(req[3]), "n": int(req[4]), "valid": True, "config": cfg,
+               "observable": "termination"}
+    elif len(req) == 3 and req[0] in ("G", "J", "R"):
+        rec = {"kind": req[0], "x": int(req[1]), "y": int(req[2]), "config": cfg, "observable": "termination"}
+    elif info.get("phase") == "RAND" and str(info.get("partial", "")).startswith("operands:"):
+        ops = dict(t.split("=") for t in info["partial"][len("operands:"):].split(","))
+        rec = {"kind": "A", "op": "mulmod", "a": int(ops["a"]), "b": int(ops["b"]), "n": int(ops["n"]), "valid": True, "config": cfg,
+               "observable": "termination", "also": {"base": int(ops["base"]), "exp": int(ops["exp"]),
+                                                     "note": "one of add/sub/mul/half(a % (n|1), n|1)/pow_mod(base, exp, n) on these operands"}}
+    concrete = rec is not None
+    if rec is None:
+        rec = {"kind": "hang", "config": cfg, "phase": phase, "info": {k: str(v)[:1500] for k, v in info.items()}}
     violations.append({"what": f"implementation did not answer during {phase} under {cfg}: {info.get('what')}",
                        "class": "oracle-termination", "no_input": not concrete,
-                       "broken": "harness request did not finish / harness died", "rec": rec})
+                       "broken": "harness request did not finish / trapped / harness died", "rec": rec})
 
 
 def explore(tier, seed, rng, wd, violations):
@@ -1315,6 +1510,29 @@ def explore(tier, seed, rng, wd, violations):
     stats["A_ops"] = {op: sum(1 for c in acases if c[0] == op) for op in ("addmod", "submod", "mulmod", "halfmod", "powmod")}
     stats["A_slow_path_mulmod"] = sum(1 for c in acases if c[0] == "mulmod" and not (c[2] == 0 or c[1] < MAXU // c[2]))
     stats["A_modulus_above_2^63"] = sum(1 for c in acases if c[3] > (1 << 63))
+    depth = {}
+    for c in acases:
+        if c[0] == "mulmod" and c[4]:
+            dd = mul_mod_depth(c[1], c[2], c[3])
+            depth[dd] = depth.get(dd, 0) + 1
+    stats["A_mulmod_recursion_depth"] = {str(k): v for k, v in sorted(depth.items())}
+    # coverage guards: the directed classes must really have been judged in this run (a starved generator is a broken check)
+    guards = {
+        "strong base-2 pseudoprimes judged (composite, miller_rabin(2) = PROBABLY_PRIME)": (stats["P_spsp2"], 40 * len(exes)),
+        "strong Lucas pseudoprimes judged (composite, strong_lucas = PROBABLY_PRIME)": (stats["P_slpsp"], 30 * len(exes)),
+        "Pollard-rho exits of find_prime_factor judged": (stats["P_rho"], 100 * len(exes)),
+        "mul_mod slow-path cases": (stats["A_slow_path_mulmod"], 500),
+        "mul_mod cases with recursion depth >= 3": (sum(v for k, v in depth.items() if k >= 3), 10),
+        "moduli above 2^63": (stats["A_modulus_above_2^63"], 500),
+        "prime powers p^k": (len(adv["prime_powers"]), 200),
+    }
+    for cls in adv:
+        guards[f"adversarial class {cls} non-empty"] = (len(adv[cls]), 1)
+    for what, (have, need) in guards.items():
+        if have < need and not any(v.get("class") in ("harness-build", "oracle-termination") for v in violations):
+            violations.append({"what": f"coverage guard: {what}: {have} < {need}", "class": "coverage-guard", "no_input": True,
+                               "broken": "generator coverage", "rec": {"kind": "coverage", "what": what, "have": have, "need": need}})
+    stats["coverage_guards"] = {k: v[0] for k, v in guards.items()}
 
     stats["t_single"] = round(time.time() - t0, 1)
     # ---- 4. mag<N>() probes ----
@@ -1353,22 +1571,30 @@ def explore(tier, seed, rng, wd, violations):
                                    "broken": "correspondence: c12 magmul", "rec": rec})
     stats["mag_cases"] = len(mcases)
     # Prime<N> static_assert: composites (incl. pseudoprimes) rejected, primes accepted
-    negs = [2047, 561, 9, 5459, 3215031751, 4294967291 * 4294967279, 1] + [rng.choice(adv["carmichael_chernick"])]
-    poss = [2, 3, 541, 4294967291, prev_prime(1 << 64), 2305843009213693951]
+    # rejection for every pseudoprime / composite class, acceptance for primes at every boundary — on both compilers
+    negs = [0, 1, 4, 9, 2047, 561, 5459, 3215031751, 4294967291 * 4294967279, 1 << 63, MAXU, 541 * 541, 547 * 547, 547 * 557 * 563,
+            SPSP2_LARGE[0], SLPSP_LARGE[0], SQUARE_FALSE_POSITIVES[1], 4294967291 ** 2, 3825123056546413051, 341550071728321,
+            SELFRIDGE_D_CASES[-31][1], SELFRIDGE_D_CASES[21][1], 2 * prev_prime(1 << 63),
+            rng.choice(adv["carmichael_chernick"]), rng.choice(adv["spsp2_p_2p_minus_1"] or SPSP2_LARGE),
+            rng.choice(adv["slpsp_twin_products"] or SLPSP_LARGE)]
+    poss = [2, 3, 5, 541, 547, 65537, 4294967291, 4294967311, prev_prime(1 << 63), next_prime(1 << 63), prev_prime(1 << 64),
+            2305843009213693951, 10785637507345693793, SELFRIDGE_D_CASES[-31][0], SELFRIDGE_D_CASES[29][0], SELFRIDGE_D_CASES[5][0]]
 
     def prime_probe(arg):
-        n, should = arg
-        p = os.path.join(wd, f"primeprobe_{n}.cc")
+        n, should, comp = arg
+        p = os.path.join(wd, f"primeprobe_{n}_{comp[:2]}.cc")
         open(p, "w").write(NEG_PRIME_PROBE % n)
+        extra = ["-fconstexpr-ops-limit=400000000", "-fconstexpr-loop-limit=50000000"] if comp == "g++" else ["-fconstexpr-steps=400000000"]
         try:
-            rc, out = cxx(p, None, san=False, syntax_only=True, extra=["-fconstexpr-ops-limit=400000000", "-fconstexpr-loop-limit=50000000"],
-                          timeout=300)
+            rc, out = cxx(p, None, compiler=comp, std="c++14" if comp == "g++" else std2, san=False, syntax_only=True, extra=extra, timeout=300)
         except Exception as ex:
             rc, out = 124, f"compilation did not finish: {ex}"
-        return n, should, rc, out
-    for n, should, rc, out in pmap(prime_probe, [(n, False) for n in negs] + [(n, True) for n in poss]):
+        return n, should, comp, rc, out
+    pp_args = [(n, False, c) for n in negs for c in ("g++", "clang++-14")] + [(n, True, c) for n in poss for c in ("g++", "clang++-14")]
+    # mag<0>() must be rejected ("Can only factor positive integers"): probed through the same template with a different body
+    for n, should, comp, rc, out in pmap(prime_probe, pp_args):
         distinct.add(("Prime", n))
-        rec = {"kind": "primeprobe", "n": n, "should_compile": should, "output": out[-800:]}
+        rec = {"kind": "primeprobe", "n": n, "should_compile": should, "compiler": comp, "output": out[-800:]}
         if should and rc != 0:
             violations.append({"what": f"Prime<{n}> is rejected although {n} is prime", "class": f"oracle-Prime-{n}", "rec": rec})
         if not should and rc == 0:
@@ -1376,7 +1602,23 @@ def explore(tier, seed, rng, wd, violations):
         if not should and rc != 0 and "requires that N is prime" not in out:
             violations.append({"what": f"Prime<{n}> rejected for an unexpected reason", "class": "probe-allowlist", "no_input": True,
                                "broken": "probe allow-list", "rec": rec})
-    stats["prime_probes"] = len(negs) + len(poss)
+    stats["prime_probes"] = len(pp_args)
+    # mag<0>() is rejected ("Can only factor positive integers"), mag<1>() is the empty magnitude
+    for comp in ("g++", "clang++-14"):
+        p0 = os.path.join(wd, f"mag0_{comp[:2]}.cc")
+        open(p0, "w").write('#include "au/magnitude.hh"\nint main() { return sizeof(au::mag<0>()); }\n')
+        rc, out = cxx(p0, None, compiler=comp, san=False, syntax_only=True)
+        p1 = os.path.join(wd, f"mag1_{comp[:2]}.cc")
+        open(p1, "w").write('#include "au/magnitude.hh"\nstatic_assert(std::is_same<decltype(au::mag<1>()), au::Magnitude<>>::value, "mag<1>");\n'
+                            'int main() { return 0; }\n')
+        rc1, out1 = cxx(p1, None, compiler=comp, san=False, syntax_only=True)
+        distinct.add(("mag01", comp))
+        if rc == 0 or "Can only factor positive integers" not in out:
+            violations.append({"what": f"mag<0>() is not rejected with the library's static_assert under {comp}", "class": "oracle-mag0",
+                               "rec": {"kind": "mag0", "compiler": comp, "output": out[-800:]}})
+        if rc1 != 0:
+            violations.append({"what": f"mag<1>() is not Magnitude<> under {comp}", "class": "oracle-mag1",
+                               "rec": {"kind": "mag0", "compiler": comp, "output": out1[-800:]}})
     stats["t_probes"] = round(time.time() - t0, 1)
 
     evaluations = (sweep_total["n"] + sweep_total["fn"] + rand_total["n"] +
